@@ -329,7 +329,7 @@ func (x *Exec) loopLocs(st *State, l *Loop) []loopLoc {
 			bt := derefType(base.Ty)
 			if stt, ok := bt.Underlying().(*types.Struct); ok {
 				for i := 0; i < stt.NumFields(); i++ {
-					if stt.Field(i).Name() == e.Name {
+					if fieldIs(bt, stt.Field(i), e.Name) {
 						out = append(out, loopLoc{regHeap(fieldKey(bt, i), heapSortField(bt, i)), base.T})
 					}
 				}
